@@ -6,6 +6,9 @@ package connectconformance
 
 import (
 	"context"
+	"net"
+	"os"
+	"path/filepath"
 	"encoding/binary"
 	"encoding/json"
 	"errors"
@@ -97,7 +100,18 @@ type c10Op struct {
 	started chan struct{}
 }
 
+var c10OSKind = false // set by TestVerifC10RunOS: the client is an OS process (runCommand)
+
 func c10Run(script string, hist [][]any, slowCb bool) c10Result {
+	if c10OSKind {
+		return c10RunOS(script, hist, slowCb)
+	}
+	return c10RunWith(script, hist, slowCb, nil)
+}
+
+// c10RunWith: starter == nil uses the scripted in-process client below; otherwise the given starter
+// (an OS process whose operations are driven by osClient) is used.
+func c10RunWith(script string, hist [][]any, slowCb bool, osc *c10OSClient) c10Result {
 	log := &c10Log{gate: make(chan struct{}), slowCb: slowCb}
 	res := c10Result{Script: script, Schedule: hist}
 	scr := c10Scripts[script]
@@ -219,7 +233,11 @@ func c10Run(script string, hist [][]any, slowCb bool) c10Result {
 
 	ctx, cancel := context.WithCancel(context.Background())
 	defer cancel()
-	runner, err := runClient(ctx, runInProcess([]string{"verifclient"}, impl))
+	starter := runInProcess([]string{"verifclient"}, impl)
+	if osc != nil {
+		starter = osc.starter(log, clientOps, clientExited)
+	}
+	runner, err := runClient(ctx, starter)
 	if err != nil {
 		res.Hang = "runClient failed: " + err.Error()
 		return res
@@ -430,4 +448,162 @@ func TestVerifC10Run(t *testing.T) {
 	for _, r := range results {
 		out.Put(r)
 	}
+}
+
+
+/* ------------------------------------------------------------------------------------------------
+   OS-process kind: the client is the test binary re-executed as `verif-helper scriptclient <sock>`;
+   every operation it performs on its real stdin/stdout is commanded over a control socket, so the
+   harness can log Call before and Ret after it, exactly as for the in-process client.           */
+
+type c10OSClient struct {
+	dir string
+	id  int
+}
+
+type c10Ctl struct {
+	Op   string `json:"op"`
+	Kind string `json:"kind,omitempty"`
+	Name string `json:"name,omitempty"`
+	Code int    `json:"code,omitempty"`
+}
+
+type c10CtlReply struct {
+	Ret string `json:"ret,omitempty"`
+	Sig string `json:"sig,omitempty"`
+}
+
+func (o *c10OSClient) starter(log *c10Log, clientOps chan *c10Op, clientExited chan struct{}) processStarter {
+	return func(ctx context.Context, pipeStderr bool) (*process, error) {
+		sock := filepath.Join(o.dir, fmt.Sprintf("c%d.sock", o.id))
+		_ = os.Remove(sock)
+		l, err := net.Listen("unix", sock)
+		if err != nil {
+			return nil, err
+		}
+		proc, err := runCommand([]string{os.Args[0], "verif-helper", "scriptclient", "-", "-", sock})(ctx, pipeStderr)
+		if err != nil {
+			l.Close()
+			return nil, err
+		}
+		go func() {
+			defer close(clientExited)
+			defer l.Close()
+			_ = l.(*net.UnixListener).SetDeadline(time.Now().Add(10 * time.Second))
+			conn, err := l.Accept()
+			if err != nil {
+				return
+			}
+			defer conn.Close()
+			replies := make(chan c10CtlReply, 16)
+			go func() {
+				defer close(replies)
+				dec := json.NewDecoder(conn)
+				for {
+					var r c10CtlReply
+					if dec.Decode(&r) != nil {
+						return
+					}
+					replies <- r
+				}
+			}()
+			enc := json.NewEncoder(conn)
+			exited := false
+			exit := func(fail bool) {
+				if exited {
+					return
+				}
+				exited = true
+				log.put(c10Event{E: "Exit", Fail: c10b(fail)})
+				code := 0
+				if fail {
+					code = 1
+				}
+				_ = enc.Encode(c10Ctl{Op: "X", Code: code})
+			}
+			// call performs one commanded operation; it returns ("", false) if the child was told to
+			// stop by the runner (SIGTERM) before the operation finished
+			call := func(c c10Ctl) (string, bool) {
+				if enc.Encode(c) != nil {
+					return "", false
+				}
+				for r := range replies {
+					if r.Sig != "" {
+						exit(false)
+						return "", false
+					}
+					return r.Ret, true
+				}
+				return "", false
+			}
+			doRead := func() (string, bool) {
+				log.put(c10Event{E: "ReadCall"})
+				r, ok := call(c10Ctl{Op: "R"})
+				if ok {
+					log.put(c10Event{E: "ReadRet", R: r})
+				}
+				return r, ok
+			}
+			for !exited {
+				var op *c10Op
+				var ok bool
+				select {
+				case op, ok = <-clientOps:
+				case r, rok := <-replies:
+					if !rok || r.Sig != "" {
+						exit(false)
+					}
+					continue
+				}
+				if !ok {
+					break
+				}
+				switch op.kind {
+				case "R":
+					close(op.started)
+					if _, ok := doRead(); !ok {
+						exit(false)
+					}
+				case "W":
+					close(op.started)
+					log.put(c10Event{E: "WriteCall", K: op.wkind, N: op.name})
+					if _, ok := call(c10Ctl{Op: "W", Kind: op.wkind, Name: op.name}); !ok {
+						exit(false)
+						break
+					}
+					log.put(c10Event{E: "WriteRet", R: "ok"})
+					if op.wkind == "trunc" {
+						exit(false)
+					}
+				case "X":
+					close(op.started)
+					exit(op.fail)
+				}
+			}
+			// schedule exhausted: behave like a conformant client - consume stdin until it ends, exit
+			for !exited {
+				r, ok := doRead()
+				if !ok || r == "eof" {
+					exit(false)
+				}
+			}
+		}()
+		return proc, nil
+	}
+}
+
+func c10RunOS(script string, hist [][]any, slowCb bool) c10Result {
+	id := int(atomic.AddInt64(&c10OSSeq, 1))
+	return c10RunWith(script, hist, slowCb, &c10OSClient{dir: c10OSDir, id: id})
+}
+
+var (
+	c10OSSeq int64
+	c10OSDir string
+)
+
+func TestVerifC10RunOS(t *testing.T) {
+	c10OSKind = true
+	c10OSDir = verifutil.Env("VERIF_DIR", t.TempDir())
+	TestVerifC10Run(t)
 }
